@@ -37,8 +37,9 @@ EXPLANATION = (
 )
 NONTRIVIAL_RULE = "ran a feedback chain of at least one step or a burst of at least two events"
 BOUNDS = {
-    "cycle_bounded": "chain kind fixed per item out of {always, raise, done.state, done.invoke, parallel-always}; maxIterations in [1,5]; natural length L in [0,7] or unbounded; trigger in {start(), event}; both engines",
+    "cycle_bounded": "chain kind fixed per item out of {always, raise, done.state, done.invoke, parallel-always, event->always-with-raise, event->entry-raise->event-with-raise}; maxIterations in [1,5]; natural length L in [0,7] or unbounded; trigger in {start(), event}; both engines",
     "burst": "maxIterations in [1,5]; burst size n in [0,8]; event kind in {plain, re-arming a delayed self-raise, forwarded to a child actor (async)}; with/without a pending delayed self-raise; send() one by one or send_events(); both engines",
+    "residue": "machine RZ (nested pure/choose/enqueueActions expansions that succeed or fail at depth 1-3, a raised event whose handler fails, a choose guard that raises); event sequences of length N (3 quick / 4 thorough) over 7 events; both engines; after every event, at rest, _action_depth / _raise_depth / _is_processing equal their values after start() - an inductive step: no residue per event means no accumulation over histories of any length",
     "yields": "async engine; maxIterations in [1,4]; chain kind in {raise, done.state}; unbounded chain cut by the engine, heartbeat period 0",
 }
 ASSUMPTIONS = [
@@ -47,7 +48,7 @@ ASSUMPTIONS = [
 ]
 WALL_BUDGET = {"quick": 900.0, "thorough": 3300.0}
 
-KINDS = ["always", "raise", "donestate", "doneinvoke", "par_always"]
+KINDS = ["always", "raise", "donestate", "doneinvoke", "par_always", "alw_raise", "entry_raise"]
 CTL: Dict[str, Any] = {}
 _M: Dict[str, Any] = {}
 INF = 10 ** 6
@@ -94,6 +95,9 @@ def _svc(i: Any, c: Any, e: Any) -> Any:
     return 1
 
 
+TRIGGER = {"always": "ALW", "raise": "RAISE", "donestate": "DONE", "doneinvoke": "SVC", "par_always": "PAR", "alw_raise": "KICK", "entry_raise": "EK"}
+
+
 def cm_config(k: int) -> Dict[str, Any]:
     from xstate_statemachine import actions as A
 
@@ -102,6 +106,9 @@ def cm_config(k: int) -> Dict[str, Any]:
         "states": {
             "Idle": {"on": {
                 "ALW": "A1", "DONE": "C", "SVC": "W", "PAR": "P",
+                # mixed chains: the feedback link is raised during the eventless phase / by an entry action
+                "KICK": {"target": "H", "actions": ["inc"]},
+                "EK": {"target": "E", "actions": ["inc"]},
                 "RAISE": {"actions": ["inc", A.choose([{"guard": "lt", "actions": [A.raise_("RAISE")]}])]},
                 "DRAISE": {"actions": [A.raise_("LATE", delay=20)]},
                 # debounce pattern: every KEY re-arms a delayed self-raise under the same send id
@@ -112,6 +119,9 @@ def cm_config(k: int) -> Dict[str, Any]:
                 "HIRE": {"actions": [{"type": "xstate.spawnChild", "params": {"src": "kid", "id": "w1"}}]},
                 "JOB": {"actions": [{"type": "xstate.sendTo", "params": {"to": "w1", "event": "WORK"}}, "ping"]},
             }},
+            "H": {"always": [{"target": "Idle", "actions": [A.choose([{"guard": "lt", "actions": [A.raise_("KICK")]}])]}]},
+            "E": {"entry": [A.choose([{"guard": "lt", "actions": [A.raise_("EB")]}])],
+                  "on": {"EB": {"target": "Idle", "actions": [A.raise_("EK")]}, "PING": {"actions": ["ping"]}}},
             "A1": {"always": [{"guard": "lt", "target": "A2", "actions": ["inc"]}], "on": {"PING": {"actions": ["ping"]}}},
             "A2": {"always": [{"guard": "lt", "target": "A1", "actions": ["inc"]}], "on": {"PING": {"actions": ["ping"]}}},
             "C": {
@@ -142,9 +152,14 @@ def start_config(k: int, kind: str) -> Dict[str, Any]:
     """Same machine whose initial state is already inside the chain (the
     chain is triggered by start())."""
     cfg = cm_config(k)
-    cfg["initial"] = {"always": "A1", "donestate": "C", "doneinvoke": "W", "par_always": "P", "raise": "Idle"}[kind]
+    cfg["initial"] = {"always": "A1", "donestate": "C", "doneinvoke": "W", "par_always": "P", "raise": "Idle", "alw_raise": "Idle", "entry_raise": "Idle"}[kind]
     if kind == "raise":
-        cfg["states"]["Idle"]["entry"] = [{"type": "xstate.raise", "params": {"event": "RAISE"}}]
+        cfg["states"]["Idle"]["entry"] = [{"type": "xstate.raise", "params": {"event": TRIGGER[kind]}}]
+    if kind in ("alw_raise", "entry_raise"):
+        # these chains pass through Idle again: boot from a separate state whose entry raises the trigger once
+        cfg["initial"] = "Boot"
+        cfg["states"]["Boot"] = {"entry": [{"type": "xstate.raise", "params": {"event": TRIGGER[kind]}}],
+                                 "on": {k: v for k, v in cfg["states"]["Idle"]["on"].items() if k in ("KICK", "EK")}}
     return cfg
 
 
@@ -176,7 +191,6 @@ def set_params(p: Dict[str, Any]) -> None:
             _machine(k, kind)
 
 
-TRIGGER = {"always": "ALW", "raise": "RAISE", "donestate": "DONE", "doneinvoke": "SVC", "par_always": "PAR"}
 
 
 def cycle_bounded(eng: int, mi: int, L: int, inf: bool, at_start: bool) -> bool:
@@ -240,9 +254,10 @@ def cycle_bounded(eng: int, mi: int, L: int, inf: bool, at_start: bool) -> bool:
     if why is None:
         steps = info["steps_chain"]
         per_chain = steps if kind != "par_always" else CTL["steps"][: steps].count("step")
-        if not inf and L <= k:
+        links = 2 * L if kind == "entry_raise" else L     # entry_raise has two raised events per counted step
+        if not inf and links <= k:
             # (the RAISE handler itself counts one step before it decides whether to raise again)
-            want = max(L, 1) if kind == "raise" else L
+            want = max(L, 1) if kind in ("raise", "alw_raise", "entry_raise") else L
             if per_chain != want:
                 why = f"natural chain of length {L} (<= maxIterations {k}) ran {per_chain} steps"
             if why is None and kind == "par_always" and CTL["steps"][: steps].count("step2") != L:
@@ -275,6 +290,108 @@ async def _drain(it: Any) -> None:
         if CTL.get("out"):
             return
         await asyncio.sleep(0)
+
+
+# ---------------------------------------------------------------------------
+# residue: the counters that implement the bounds are back at rest after every event
+# ---------------------------------------------------------------------------
+
+RZ_EVENTS = ["OK", "B1", "B2", "B3", "RB", "OK2", "GB"]
+
+
+def _rz_machine() -> Any:
+    m = _M.get("RZ")
+    if m is None:
+        from xstate_statemachine import actions as A, create_machine
+
+        env.install()
+
+        def mark(i: Any, c: Any, e: Any, a: Any) -> None:
+            CTL["marks"].append(e.type)
+
+        def bad_guard(c: Any, e: Any) -> bool:
+            raise ValueError("guard fault")
+
+        cfg = {
+            "id": "rz", "initial": "I", "context": {},
+            "states": {"I": {"on": {
+                # nested expansions that succeed (depth 3 and depth 2)
+                "OK": {"actions": [A.pure(lambda a: [A.choose([{"actions": [A.enqueue_actions(lambda x: x["enqueue"]("mark"))]}])])]},
+                "OK2": {"actions": [A.choose([{"actions": [A.pure(lambda a: ["mark"])]}])]},
+                # nested expansions that FAIL at depth 1, 2, 3 (an action nobody implements)
+                "B1": {"actions": [A.pure(lambda a: ["zz_missing"]), "mark"]},
+                "B2": {"actions": [A.choose([{"actions": [A.pure(lambda a: ["zz_missing"])]}])]},
+                "B3": {"actions": [A.enqueue_actions(lambda x: x["enqueue"](A.choose([{"actions": [A.pure(lambda a: ["zz_missing"])]}])))]},
+                # a raised event whose handler fails; a choose branch whose guard raises
+                "RB": {"actions": [A.raise_("HB")]},
+                "HB": {"actions": [A.pure(lambda a: ["zz_missing"])]},
+                "GB": {"actions": [A.choose([{"guard": "bad_guard", "actions": ["mark"]}, {"actions": ["mark"]}])]},
+            }}},
+        }
+        m = create_machine(cfg, logic=make_logic(actions={"mark": mark}, guards={"bad_guard": bad_guard}))
+        env.pin_hashes(m)
+        _M["RZ"] = m
+    return m
+
+
+def _counters(it: Any) -> Dict[str, Any]:
+    return {k: getattr(it, k) for k in ("_action_depth", "_raise_depth", "_is_processing") if hasattr(it, k)}
+
+
+def residue(eng: int, e0: int, e1: int, e2: int, e3: int) -> bool:
+    """
+    pre: 0 <= eng <= 1
+    pre: gate('residue', eng=eng, e0=e0, e1=e1, e2=e2, e3=e3)
+    post: _
+    """
+    from xstate_statemachine import Interpreter, SyncInterpreter
+    from xstate_statemachine.exceptions import XStateMachineError
+
+    n = P.get("N", 3)
+    evs = [RZ_EVENTS[pick(x, len(RZ_EVENTS))] for x in [e0, e1, e2, e3][:n]]
+    CTL.update({"marks": [], "steps": [], "fuel": 10 ** 6, "out": False})
+    m = _rz_machine()
+    why: Optional[str] = None
+    faults = 0
+    if eng == 0:
+        vthread.SCHED.reset(0.0)
+        it = SyncInterpreter(m)
+        it.start()
+        base = _counters(it)
+        for k, e in enumerate(evs):
+            try:
+                it.send(e)
+            except XStateMachineError:
+                faults += 1
+            except ValueError:
+                faults += 1
+            now = _counters(it)
+            if now != base and why is None:
+                why = f"after event #{k + 1} {e} the interpreter is at rest but its bound counters are {now}, at start they were {base}"
+        it.stop()
+    else:
+        it2 = Interpreter(m)
+        box: Dict[str, Any] = {}
+
+        async def go() -> None:
+            await it2.start()
+            box["base"] = _counters(it2)
+            for k, e in enumerate(evs):
+                try:
+                    await it2.send(e)
+                    await _drain(it2)
+                except XStateMachineError:
+                    pass
+                now = _counters(it2)
+                if now != box["base"] and "why" not in box:
+                    box["why"] = f"after event #{k + 1} {e} the interpreter is at rest but its bound counters are {now}, at start they were {box['base']}"
+            await it2.stop()
+
+        common.drive(go())
+        why = box.get("why")
+    if why:
+        _note(f"{'sync' if eng == 0 else 'async'} events={evs}: {why}")
+    return verdict(why is None, nontrivial=any(e not in ("OK", "OK2") for e in evs))
 
 
 def burst(eng: int, mi: int, n: int, pending: bool, batch: bool, arm: int) -> bool:
@@ -380,7 +497,7 @@ def yields(mi: int, kind: int) -> bool:
     return verdict(why[0] is None)
 
 
-OBLIGATIONS = {"cycle_bounded": cycle_bounded, "burst": burst, "yields": yields}
+OBLIGATIONS = {"cycle_bounded": cycle_bounded, "burst": burst, "yields": yields, "residue": residue}
 PROBES = {"cycle_bounded": [{"L": 3, "mi": 4}, {"L": 7, "mi": 1}, {"inf": True, "mi": 2}, {"eng": 1, "inf": True, "mi": 1}, {"eng": 1, "L": 2, "mi": 3, "at_start": True}],
           "burst": [{"eng": 1, "n": 8, "mi": 0, "arm": 1}, {"eng": 1, "n": 8, "mi": 1, "arm": 2}, {"n": 8, "mi": 0, "batch": True}, {"eng": 1, "n": 8, "mi": 0, "pending": True}, {"n": 5, "mi": 1}]}
 
@@ -392,4 +509,5 @@ def items(tier: str, seed: int) -> List[Dict[str, Any]]:
         out.append({"ob": "cycle_bounded", "params": {"kind": kind}, "timeout": 300 if quick else 1500, "label": f"cycle_bounded[{kind}]"})
     out.append({"ob": "burst", "params": {}, "timeout": 300 if quick else 900, "label": "burst"})
     out.append({"ob": "yields", "params": {}, "timeout": 200, "label": "yields"})
+    out.append({"ob": "residue", "params": {"N": 3 if quick else 4}, "timeout": 300 if quick else 1500, "label": f"residue[N={3 if quick else 4}]"})
     return out
